@@ -5,7 +5,7 @@ from datetime import timedelta
 from hypothesis import strategies as st
 
 from vlib import gen
-from vlib.runner import Violation, sut
+from vlib.runner import Stats, Violation, sut
 
 ID = "C08"
 RULE = (
@@ -144,3 +144,34 @@ def run_case(case):
     if any(model[i + 1][0] < model[i][0] for i in range(len(model) - 1)):
         classes.append("out_of_order")
     return {"nontrivial": boundary or (merges and refusals), "classes": classes, "evals": max(1, len(evs))}
+
+
+# ---------------------------------------------------------------------------
+# exhaustive small scope
+
+EXHAUSTIVE_NOTE = "extra phase 'small_scope': every list of 1..3 events over {timestamp 0..3 ms} x {duration -1,0,1,2 ms} x {A,B} (33 824 lists, any order) with every pulsetime in {0,1,2 ms} (thorough: timestamps 0..4 ms, durations -1..3 ms, pulsetimes 0..3 ms, 132 650 lists)"
+
+
+def extra_phases(tier, seed, jobs):
+    return [("small_scope", "phase_small_scope", [{"i": i, "n": jobs, "big": tier != "quick"} for i in range(jobs)])]
+
+
+def phase_small_scope(task):
+    import itertools
+
+    st_ = Stats()
+    tss, durs, ps = (range(4), (-1000, 0, 1000, 2000), (0, 1000, 2000)) if not task["big"] else (range(5), (-1000, 0, 1000, 2000, 3000), (0, 1000, 2000, 3000))
+    atoms = [{"ts_ms": t, "dur_us": d, "data": l} for t in tss for d in durs for l in "AB"]
+    lists = [list(c) for n in (1, 2, 3) for c in itertools.product(atoms, repeat=n)]
+    for evs in lists[task["i"] :: task["n"]]:
+        for P in ps:
+            case = {"events": evs, "P_us": P}
+            try:
+                run_case(case)
+            except Violation as v:
+                st_.failure = {"kind": "case", "case": case, "message": v.msg}
+                return st_
+            st_.evals += 1
+    st_.classes["cases_enumerated"] = st_.evals
+    st_.notes["cases_enumerated"] = st_.evals
+    return st_
